@@ -108,7 +108,7 @@ for w in range(0, 33):
         defines=['CQV_W=%d' % w, 'CQV_SEQ_MAX=15', 'CQV_MEMSET_EXACT=64', 'CQV_MEMCPY_EXACT=32'], unwind=66, loop_contracts=False,
         level='bounded', bound='count <= 15 values (all values, every count 0..15 incl. every partial final group size); width == %d' % w,
         functions=['carquet_bitpack_32', 'carquet_bitunpack_32', 'carquet_bitpack8_32', 'carquet_bitunpack8_32'],
-        tier='quick' if w in (0, 1, 3, 8, 13, 32) else 'thorough', wip=True, est_s=60, **SRC))
+        tier='quick' if w in (0, 1, 3, 8, 13, 32) else 'thorough', wip=False, est_s=30, **SRC))
 
 # ---- C11/C12: varint (ULEB128) and zigzag in endian.h; bit writer -> bit reader ---------------------
 V = dict(harness='harness/C11/bitpack.c', loop_contracts=False, **SRC)
